@@ -18,6 +18,7 @@ struct Sub {            // one submission
   bool acked = false, rst = false;
   bool send_failed = false;
   bool submitted = false;
+  int submit_seq = -1;        // order of the coap_send() calls as the application really made them
 };
 
 struct C08World {
@@ -30,6 +31,7 @@ struct C08World {
   std::vector<int> rx_count;
   std::vector<int> nstart;
   std::vector<std::set<int>> inflight;      // per session: mids of CONs sent, not yet ACKed/RST/given up
+  int tcp_calls = 0;
   int failing_session = -1;                 // set while coap_session_disconnected() runs for that session
   bool exceeded_reported = false;           // only the first exceedance of a run is reported (later ones are consequences)
   std::vector<int> last_started;            // per session: last submission whose first transmission was seen
@@ -262,8 +264,10 @@ struct C08 : Property {
         w.log("WIRE submission #%d complete on the stream", i);
         if (s.first_tx_count > 1) res.violate("C08.tcp_transmitted_twice", "transmitted_twice", strfmt("submission %d appears %d times on the stream", i, s.first_tx_count));
         if (s.nacks) res.violate("C08.tx_after_nack", "tx_after_nack_tcp", strfmt("submission %d transmitted after it had been NACKed", i));
-        if (!wire_order.empty() && wire_order.back() > i)
-          res.violate("C08.order", "order_tcp", strfmt("submission %d transmitted after later submission %d", i, wire_order.back()));
+        // (a coap_send() that blocks while the session comes up defers the application's later calls; what counts is the order in
+        //  which the calls were really made)
+        if (!wire_order.empty() && cw.subs[(size_t)wire_order.back()].submit_seq > s.submit_seq)
+          res.violate("C08.order", "order_tcp", strfmt("submission %d (call #%d) transmitted after submission %d (call #%d)", i, s.submit_seq, wire_order.back(), cw.subs[(size_t)wire_order.back()].submit_seq));
         wire_order.push_back(i);
         if (w.now() > s.t_submit) w.count("probe.tcp_was_held");
       }
@@ -311,6 +315,7 @@ struct C08 : Property {
         if (len) coap_add_data(p, len, body.data());
         s.submitted = true;
         s.t_submit = w.now();
+        s.submit_seq = ++cw.tcp_calls;
         w.log("SUBMIT #%zu %s len=%zu state=%d", i, s.con ? "CON" : "NON", len, (int)coap_session_get_state(ss));
         coap_mid_t mid = coap_send(ss, p);
         w.log("SUBMIT #%zu returned mid=%d", i, (int)mid);
